@@ -33,6 +33,12 @@ semantics: a deterministic interpreter `run` that computes what `Check` / `Param
   field is read **by Go field name** with the model's `Scheme.fieldVal` and *at the static Go type
   of the field* (`ofFVal`: a stored value of another kind reads as the zero value, exactly as the
   model's `fvBytes` / `fvNat` have it); it is written by prepending `(fieldIndex ti name, value)`.
+* A composite literal of a codec struct that sets an embedded struct, `scheme{saltScheme: saltScheme{…}}`,
+  writes the inner literal's fields as promoted fields, by name, into the flattened struct (`mkStruct`);
+  this is Go's meaning as long as no promoted field is shadowed, which holds for the one occurrence.
+* `&c` of a package-level string variable is a non-nil pointer to its value (`unop`); a pointer stored
+  in a struct field is known by its pointee only, so the model's `FVal.str []` vs `FVal.nilPtr` for
+  sunmd5's `Separator *string` is `&separator` vs `nil`.
 * Two statement forms have an effect through an argument, and are recognised syntactically (as
   `FlowSem.encTarget` does): `err = crypthash.Unmarshal(h, &x)` stores the struct in `x`, and the
   expression statement `Encode(dst, src)` writes into the variable or field `dst` / `dst[:]` denotes.
@@ -177,10 +183,20 @@ def writeField (s : Val) (f : String) (v : Val) : Option Val :=
     (fieldInfo ti f).bind fun fi => (toFVal fi v).map fun fv => .struct ti ((fieldIndex ti f, fv) :: vals)
   | _ => none
 
-/-- `T{K₁: v₁, …}` for a struct type the codec knows: unmentioned fields are zero. -/
+/-- `s.F₁ = v₁; s.F₂ = v₂; …`, in that order. -/
+def writeFields (s : Val) : List (String × Val) → Option Val
+  | [] => some s
+  | (f, v) :: rest => (writeField s f v).bind fun s' => writeFields s' rest
+
+/-- `T{K₁: v₁, …}` for a struct type the codec knows: unmentioned fields are zero.  `E: E{…}` with `E`
+an embedded struct of `T` — the key is the type name of the literal, and the codec's (flattened)
+description of `T` has no field of that name — sets the promoted fields of `E` by their own names. -/
 def mkStruct (ti : TypeInfo) : List (String × Val) → Option Val
   | [] => some (.struct ti [])
-  | (f, v) :: rest => (mkStruct ti rest).bind fun s => writeField s f v
+  | (f, v) :: rest => (mkStruct ti rest).bind fun s =>
+    match v with
+    | .lit T fs => if T = f ∧ (fieldInfo ti f).isNone then writeFields s fs else none
+    | _ => writeField s f v
 
 /-! ## Places: a variable or a field of a variable -/
 
@@ -234,7 +250,10 @@ def binop (o : String) (a b : Val) : Option Val :=
   else if o = "!=" then (valEq a b).map fun r => .bool (!r)
   else none
 
-/-- Conversions `T(x)`, slicing `x[:]`.  (`&x` is handled in `eval`: it does not evaluate `x`.)
+/-- Conversions `T(x)`, slicing `x[:]`.  (`&x` for a local `x` is handled in `eval`: it does not
+evaluate `x`.)  `&c` for a package-level string variable `c` (looked up in `Prims.const`; the one
+occurrence is `&separator` in sunmd5) is a non-nil pointer to that string; as everywhere in this
+semantics a pointer held in a struct field is known by its pointee only (`Val.ptr`).
 `hashCost` is `uint8` (bcrypt/bcrypt.go), `hashRounds` is `uint32` (desext/desext.go). -/
 def unop (o : String) (a : Val) : Option Val :=
   match o, a with
@@ -248,6 +267,7 @@ def unop (o : String) (a : Val) : Option Val :=
   | "conv:uint32", .nat n => some (.nat (n % 2 ^ 32))
   | "conv:hashRounds", .nat n => some (.nat (n % 2 ^ 32))
   | "conv:int", .nat n => some (.nat n)
+  | "&", .str s => some (.ptr (.str s))
   | _, _ => none
 
 def kvList : List Val → Option (List (String × Val))
@@ -468,6 +488,9 @@ def constOf (S : Def) (d : String) : Option Val :=
     | "sha512", "DefaultSaltLength" => some (.nat Gen.sha512.DefaultSaltLength)
     | "sha512", "ImplicitRounds" => some (.nat Gen.sha512.ImplicitRounds)
     | "sunmd5", "DefaultSaltLength" => some (.nat Gen.sunmd5.DefaultSaltLength)
+    | "sunmd5", "PrefixZeroRounds" => some (.str Gen.sunmd5.PrefixZeroRounds)
+    | "sunmd5", "PrefixNonZeroRounds" => some (.str Gen.sunmd5.PrefixNonZeroRounds)
+    | "sunmd5", "sunmd5.separator" => some (.str [])       -- `var separator = ""` (sunmd5/sunmd5.go:139), never assigned: `Gen.Facts.lateGlobalWrites` lists address-of uses only
     | "des", "Prefix" => some (.str Gen.des.Prefix)
     | "des", "SaltLength" => some (.nat Gen.des.SaltLength)
     | "desext", "Prefix" => some (.str Gen.desext.Prefix)
